@@ -122,7 +122,11 @@ fn apply_stall_gate(conns: &mut [SrtlaConnection], current_time_ms: u64, config:
     }
 
     let any_healthy = conns.iter().any(|c| {
-        !c.is_timed_out(current_time_ms)
+        // `connected` matters: after a REG_ERR a link keeps a schedulable phase
+        // but is disconnected (score -1, never picked). Counting it as the
+        // healthy alternative would gate the last link that can carry traffic.
+        c.connected
+            && !c.is_timed_out(current_time_ms)
             && c.is_schedulable()
             && !c.stall_latched()
             && !c.silence_pulled
